@@ -198,7 +198,9 @@ class Report:
         return None
 
     def _write_evidence(self, n_viol, checker_cmd, known_hit):
-        proofish = [o for o in self.obs if o.kind in ("proof", "exhaustive", "scan")]
+        # obligations recorded as known findings are reported separately (KNOWN-FINDING lines, known_findings key):
+        # they are neither discharged nor counted among the obligations this run claims
+        proofish = [o for o in self.obs if o.kind in ("proof", "exhaustive", "scan") and o.verdict != KNOWN]
         n_ob = len(proofish)
         n_dis = sum(1 for o in proofish if o.verdict == DISCHARGED)
         backends = {}
@@ -219,6 +221,7 @@ class Report:
             "solver_time_s": round(solver_time, 3),
             "obligations_detail": [o.to_json() for o in self.obs][:4000],
             "known_findings_reproduced": [kf["id"] for kf, _ in known_hit],
+            "known_finding_obligations": sum(1 for o in self.obs if o.verdict == KNOWN),
             "bounded": self.bounded,
         }
         cov.update(self.extra)
